@@ -1223,6 +1223,263 @@ def argform_cases(q):
 
 
 # =================================================================================================
+# documented work arrays (`alphas`): one array handed to successive calls of the Clenshaw derivative sums
+
+WA_EVENTS = ['A', 'B', 'U', 'E0', 'Ar']     # coefficient vector (dense A, dense B, unit e_{L-1}, unit e_0) x coordinate set (X0; 'Ar': A at X1)
+
+
+def wa_call(R, kind, par, cs, x, j, sig, **kw):
+    if kind == 'jacobi':
+        return R.call(P.jacobi_sum_clenshaw_der, cs, par[0], par[1], x, j=j, sig=sig, **kw)
+    if kind == 'qbfs':
+        return R.call(qpoly.clenshaw_qbfs_der, cs, x, j=j, sig=sig, **kw)
+    return R.call(qpoly.clenshaw_q2d_der, cs, par[0], x, j=j, sig=sig, **kw)
+
+
+def wa_oracle(R, kind, par, cs):
+    """Cheb1D of the function the alphas of the routine name (see the module docstring), from the value routines term by term."""
+    def f(xn):
+        tot = np.zeros_like(xn)
+        u = np.sqrt(xn) if kind != 'jacobi' else None
+        for i, c in enumerate(cs):
+            if c == 0:
+                continue
+            if kind == 'jacobi':
+                v = R.call(P.jacobi, i, par[0], par[1], xn)
+            elif kind == 'qbfs':
+                v = R.call(qpoly.Qbfs, i, u)
+            else:
+                v = R.call(qpoly.Q2d, i, par[0], u, np.zeros_like(u))
+            if v is FAILED:
+                return FAILED
+            v = np.asarray(v, dtype=float)
+            if kind == 'qbfs':
+                v = v / (xn * (1 - xn))
+            elif kind == 'q2d':
+                v = v / u ** par[0]
+            tot = tot + c * v
+        return tot
+    dom = (-1, 1) if kind == 'jacobi' else (0, 1)
+    return Cheb1D(f, dom[0], dom[1], len(cs) - 1)
+
+
+def wa_combo(kind, par, out, i, L):
+    """The documented combination of row i of the alphas that is the i-th derivative of the sum."""
+    if kind == 'jacobi':
+        return out[i][0]
+    if kind == 'qbfs':
+        return 2 * (out[i][0] + (out[i][1] if L > 1 else 0.0))
+    got = 0.5 * out[i][0]
+    if par[0] == 1 and L - 1 > 2:
+        got = got - 2 / 5 * out[i][3]
+    return got
+
+
+def run_workarray(case, seed, R):
+    kind, par, L, j, xs, depth = case['kind'], case['par'], case['L'], case['j'], case['xs'], case['depth']
+    name = {'jacobi': 'jacobi_sum_clenshaw_der', 'qbfs': 'clenshaw_qbfs_der', 'q2d': 'clenshaw_q2d_der'}[kind]
+    xa = np.array(JPTS) if kind == 'jacobi' else XQ.copy()
+    if xs == 'array':
+        X0, X1 = xa.copy(), xa[::-1].copy()
+    else:
+        X0, X1 = float(xa[3]), float(xa[5])
+    vecs = {'A': unit_or_dense(L, -1, seed, 96), 'B': [2.5 * v for v in unit_or_dense(L, -1, seed, 97)],
+            'U': unit_or_dense(L, L - 1, seed, 0), 'E0': unit_or_dense(L, 0, seed, 0)}
+    orcs = {}
+    for key, cs in vecs.items():
+        orc = wa_oracle(R, kind, par, cs)
+        if not orc.ok:
+            return
+        R.expect(orc.tail_ok(), f'{kind}:value-not-degree-n', f'sum of the value routines is not of degree {L - 1}; oracle invalid (tail {orc.tail:.3e})')
+        orcs[key] = orc
+    wshape = (j + 1, L) + np.shape(X0)
+    amp = L if kind == 'qbfs' else 1
+
+    def step(ev, work, sig, hist):
+        key = 'A' if ev == 'Ar' else ev
+        x = X1 if ev == 'Ar' else X0
+        cs, orc = vecs[key], orcs[key]
+        kw = {} if work is None else {'alphas': work}
+        # the work array is a documented output buffer and is, by design, what the previous call returned: the generic hygiene rules
+        # (result changed by a later call) do not apply to it
+        out = wa_call(R, kind, par, np.array(cs, dtype=np.float64), x if np.ndim(x) == 0 else x.copy(), j, sig + ':exception', hygiene=work is None, **kw)
+        if out is FAILED:
+            return False
+        a = np.asarray(out)
+        if not R.expect(a.dtype.kind == 'f' and a.shape == wshape, sig + ':shape', f'alphas shape {a.shape}, expected {wshape} (history {hist})'):
+            return False
+        xe = np.atleast_1d(np.asarray(x, dtype=float))
+        ok = True
+        for i in range(1, j + 1):
+            want = orc.der(xe, i)
+            cond = amp * sum(orc.cond(xa, i))
+            ok &= bool(close(R, np.atleast_1d(wa_combo(kind, par, a, i, L)), want, cond, sig,
+                             f'{name} row {i} vs d^{i}/dx^{i} of the sum, coefficients {cs}, j={j}, call history {hist} '
+                             + ('(no work array)' if work is None else '(one zero-initialised work array `alphas` passed to every call of the history)')))
+        return ok
+
+    evs = [e for e in WA_EVENTS if not (L == 1 and e == 'E0')]
+    cell = jcls(j, L)
+    # without a work array (the reference behaviour of this tree for the same calls)
+    for ev in evs:
+        step(ev, None, f'{name}:{cell}', [ev])
+    # every history of up to `depth` calls sharing one work array; the last call of each history is judged (prefix-closed)
+    hists = [[e] for e in evs]
+    while hists:
+        nxt = []
+        for h in hists:
+            work = np.zeros(wshape, dtype=np.float64)
+            good = True
+            for n_, ev in enumerate(h):
+                last = n_ == len(h) - 1
+                if last:
+                    good = step(ev, work, f'{name}:workarray:' + ('first-use' if len(h) == 1 else 'reused') + f':{cell}', h)
+                else:
+                    key = 'A' if ev == 'Ar' else ev
+                    x = X1 if ev == 'Ar' else X0
+                    if wa_call(R, kind, par, np.array(vecs[key], dtype=np.float64), x if np.ndim(x) == 0 else x.copy(), j,
+                               f'{name}:workarray:exception', hygiene=False, alphas=work) is FAILED:
+                        good = False
+                        break
+            if good and len(h) < depth:
+                nxt += [h + [e] for e in evs]
+        hists = nxt
+        if R.violations:
+            break       # one level deeper would repeat the same finding |events| times
+    R.nontrivial(L >= 2)
+    R.outcome(f'{xs}')
+
+
+def workarray_cases(q):
+    depth = 2 if q else 3
+    cfg = [('jacobi', ab) for ab in ([0, 0], [0, 4], [-0.5, 0.5], [2.5, 0.3])] + [('qbfs', [])] + [('q2d', [m]) for m in (1, 2, 3)]
+    Ls = (1, 2, 3, 5) if q else (1, 2, 3, 4, 5, 8)
+    js = (1, 2, 3) if q else (1, 2, 3, 4)
+    return [{'kind': kind, 'par': par, 'L': L, 'j': j, 'xs': xs, 'depth': depth} for L in Ls for j in js for kind, par in cfg for xs in ('array', 'scalar')]
+
+
+# =================================================================================================
+# size thresholds: every routine of the property is point-wise in its coordinate arguments, so f(tile(x)) == tile(f(x))
+
+LG_B = np.array([-0.83, -0.57, -0.31, -0.12, 0.09, 0.27, 0.46, 0.64, 0.71, 0.88, 0.95])      # 11 generic interior points (odd tiling period)
+LG_U = (LG_B + 1) / 2
+LG_T = 0.2 + 0.55 * np.arange(len(LG_B))
+LG = None
+LG_ROW = ('Q2d_and_der',)
+
+
+def lg_routines():
+    """name -> (callable(*coordinate arrays), [base coordinate vectors of length 11]).
+
+    Q2d_and_der turns VECTOR x, y into a grid (cart_to_polar, vec_to_grid=True, documented): it is point-wise for >= 2-D coordinates
+    only, and gets its 1-D sizes as (1, N) arrays (LG_ROW).
+    """
+    cs = list(AF_COEF)
+    cm0 = [0.37, -1.21, 0.58]
+    ams = [[0.93, -0.45], [0.31, 0.77, -0.62]]
+    bms = [[-0.28, 0.66, 0.12], [0.54, -0.83]]
+    c, k = 1 / 50, -0.6
+    rho = 10 * LG_U
+    out = {}
+    for name, fam in FAMS.items():
+        par = {'jacobi': [2.5, 0.3], 'laguerre': [0.5]}.get(name, [])
+        a, b = fam['dom']
+        base = [0.5 * (a + b) + 0.5 * (b - a) * LG_B] if name != 'laguerre' else [8 * LG_U]
+        out[f'{name}_der'] = ((lambda x, fam=fam, par=par: fam['der'](5, x, *par)), base)
+        out[f'{name}_der_seq'] = ((lambda x, fam=fam, par=par: fam['seq']([1, 2, 5], x, *par)), base)
+    out['zernike_nm_der'] = (lambda r, t: P.zernike_nm_der(5, 3, r, t), [LG_U, LG_T])
+    out['zernike_nm_der_seq'] = (lambda r, t: P.zernike_nm_der_seq([(3, 1), (4, -2), (5, 3)], r, t), [LG_U, LG_T])
+    out['jacobi_sum_clenshaw_der'] = (lambda x: P.jacobi_sum_clenshaw_der(cs, 0, 4, x, j=2)[1:, 0], [LG_B])
+    out['clenshaw_qbfs_der'] = (lambda x: qpoly.clenshaw_qbfs_der(cs, x, j=2)[1:, :2], [LG_U ** 2])
+    out['clenshaw_q2d_der'] = (lambda x: (lambda a: (a[1:, 0], a[1, 3]))(qpoly.clenshaw_q2d_der(cs, 1, x, j=2)), [LG_U ** 2])
+    out['compute_z_zprime_Qbfs'] = (lambda u, usq: qpoly.compute_z_zprime_Qbfs(cs, u, usq), [LG_U, LG_U ** 2])
+    out['compute_z_zprime_Qcon'] = (lambda u, usq: qpoly.compute_z_zprime_Qcon(cs, u, usq), [LG_U, LG_U ** 2])
+    out['compute_z_zprime_Q2d'] = (lambda u, t: qpoly.compute_z_zprime_Q2d(cm0, ams, bms, u, t), [LG_U, LG_T])
+    out['sphere_sag_der'] = (lambda r: S.sphere_sag_der(c, r), [rho])
+    out['conic_sag_der'] = (lambda r: S.conic_sag_der(c, k, r), [rho])
+    out['der_direction_cosine_spheroid'] = (lambda r: S.der_direction_cosine_spheroid(c, k, r), [rho])
+    out['off_axis_conic_der'] = (lambda r, t: S.off_axis_conic_der(c, k, r, t, 5, 0), [rho, LG_T])
+    out['off_axis_conic_sigma_der'] = (lambda r, t: S.off_axis_conic_sigma_der(c, k, r, t, 5, 0), [rho, LG_T])
+    out['Q2d_and_der'] = (lambda x, y: S.Q2d_and_der(np.array(cm0) * 0.05, [np.array(a) * 0.05 for a in ams], [np.array(b) * 0.05 for b in bms],
+                                                    x, y, 12.0, c, k, 5, 0), [rho * np.cos(LG_T), rho * np.sin(LG_T)])
+    for k_, v in out.items():
+        v[0].__qualname__ = k_
+    return out
+
+
+LG_1D = [s for kk in range(7, 17) for s in (2 ** kk + 1, 2 ** kk + 2 ** (kk - 1) + 3)]
+LG_2D = [[129, 3], [150, 150], [181, 182], [300, 300], [257, 1030]]
+LG_BIG = [[1025, 1030]]
+LG_GRID = ('zernike_nm_der', 'zernike_nm_der_seq', 'jacobi_sum_clenshaw_der', 'clenshaw_qbfs_der', 'clenshaw_q2d_der', 'compute_z_zprime_Qbfs', 'compute_z_zprime_Qcon',
+           'compute_z_zprime_Q2d', 'sphere_sag_der', 'conic_sag_der', 'der_direction_cosine_spheroid', 'off_axis_conic_der', 'off_axis_conic_sigma_der', 'Q2d_and_der')
+
+
+def lg_parts(out, cshape):
+    """The float arrays of a result (array or tuple of arrays) whose trailing axes are the coordinate shape, else None."""
+    try:
+        parts = [np.asarray(p) for p in (out if isinstance(out, (tuple, list)) else (out,))]
+    except Exception:   # noqa
+        return None
+    n = len(cshape)
+    if not parts or any(p.dtype.kind != 'f' or p.ndim < n or p.shape[p.ndim - n:] != tuple(cshape) for p in parts):
+        return None
+    return parts
+
+
+def run_large(case, seed, R):
+    global LG
+    if LG is None:
+        LG = lg_routines()
+    name, shape = case['routine'], tuple(case['shape'])
+    f, base = LG[name]
+    period = len(base[0])
+    if name in LG_ROW:
+        base = [b.reshape(1, -1) for b in base]
+        shape = (1,) * (2 - len(shape)) + shape if len(shape) < 2 else shape
+    N = int(np.prod(shape))
+    cls = 'big' if N > 2 ** 20 else f'{len(case["shape"])}d'
+    sig = f'{name}:large:{cls}'
+    small = lg_parts(R.call(f, *[b.copy() for b in base], sig=f'{name}:large:period:exception'), base[0].shape)
+    if small is not None:
+        small = [p.reshape(p.shape[:p.ndim - base[0].ndim] + (period,)) for p in small]
+        base = [b.reshape(-1) for b in base]
+    if small is None:
+        if not R.violations:
+            R.violation(f'{name}:large:period', f'{name} on {period} points does not return float arrays of the coordinate shape')
+        return
+    idx = (np.arange(N) % period).reshape(shape)
+    got = R.call(f, *[np.ascontiguousarray(b[idx]) for b in base], hygiene=False, sig=sig + ':exception')
+    if got is FAILED:
+        return
+    big = lg_parts(got, shape)
+    if not R.expect(big is not None and len(big) == len(small) and all(g.shape == s.shape[:-1] + shape for g, s in zip(big, small)), sig + ':shape',
+                    f'{name} on coordinates of shape {shape}: result is not float arrays of that shape with the leading axes of the {period}-point result'):
+        return
+    generic = True
+    for pi, (g, s) in enumerate(zip(big, small)):
+        want = s[..., idx]
+        rowmax = np.max(np.abs(s), axis=-1).reshape(s.shape[:-1] + (1,) * len(shape))
+        generic &= bool(np.all(s != 0))
+        R.expect_close(g, want, KTOL * EPS * (np.abs(want) + rowmax) + 1e-300, sig,
+                       f'{name} on the {period}-point coordinate set tiled to shape {shape} ({N} points, C order) vs the tiled {period}-point result, output {pi}')
+    R.nontrivial(generic)
+    R.outcome('large:' + cls)
+
+
+def large_cases(q):
+    global LG
+    if LG is None:
+        LG = lg_routines()
+    names = list(LG)
+    shapes = [[s] for s in LG_1D] + LG_2D
+    cases = [{'routine': r, 'shape': sh} for sh in shapes for r in names]
+    # > 2^20 points: in the quick tier only the routines that are evaluated on whole surface / pupil grids (and the sums they are built on)
+    bigs = [r for r in names if not q or r in LG_GRID]
+    cases += [{'routine': r, 'shape': sh} for sh in LG_BIG for r in bigs]
+    return cases
+
+
+# =================================================================================================
 # plan
 
 def plan(tier, seed):
@@ -1301,6 +1558,8 @@ def plan(tier, seed):
                  for dx, dy in ([0, 0], [5, 0]) for kk in list(range(st['c'] + sum(a + b for a, b in st['ab']))) + [-1]]
     qd_cases += [{'c': c, 'k': k, 'dx': dx, 'dy': dy, 'coef': kk, 'Rn': Rn} for Rn in RNS for c in CS for k in KS for dx, dy in OFF for kk in (-2, 0, QST['c'], -1)]
     pts = 'points: end-points, 0 and rationals inside the domain'
+    wa_cases = workarray_cases(q)
+    lg_cases = large_cases(q)
     return [
         ScopeUnit('poly1d', poly_cases, run_poly1d,
                   f'every order n in [0..{NMAX}] x every family/parameter (Legendre, Chebyshev 1-4, Hermite He/H, Laguerre alpha in {LAG_ALPHABET}, '
@@ -1360,4 +1619,17 @@ def plan(tier, seed):
                   f'(c,k) x (dx,dy) x (base conic only, every unit coefficient of the structure {QST}, dense) at normalization_radius {QNORM}, and x normalization_radius in {RNS} for '
                   f'four coefficient choices, and {len(qd_sparse)} sparse azimuthal structures (every subset of orders populated, others empty) x every unit coefficient; ' 'c includes exactly 0 as int and float (flat base); float64 ndarray coefficients reused by every call of a case: Q2d_and_der slopes against Richardson-extrapolated central '
                   'differences (measured residual in the tolerance) of the sag it returns, in rho and theta', reset=reset_all),
+        ScopeUnit('workarray', wa_cases, run_workarray,
+                  'the documented work array `alphas` of jacobi_sum_clenshaw_der ((alpha,beta) in {(0,0),(0,4),(-.5,.5),(2.5,.3)}), clenshaw_qbfs_der and clenshaw_q2d_der (m in 1..3) x '
+                  f'coefficient length L in {sorted({c["L"] for c in wa_cases})} x derivative order j in {sorted({c["j"] for c in wa_cases})} x coordinate (array, scalar): ONE zero-initialised array of the documented shape '
+                  f'(j+1, L, *x.shape) is passed to every call of every history of up to {wa_cases[0]["depth"]} calls over the event alphabet {WA_EVENTS} (dense A, dense B, unit e_(L-1), unit e_0, A on the '
+                  'reversed / another coordinate set); after the last call of every history (prefix-closed, so after every call) the documented combination of row i = 1..j of the returned alphas is judged '
+                  'against the i-th Chebyshev derivative of the sum of the value routines, exactly as for the same calls without a work array', reset=reset_all),
+        ScopeUnit('large', lg_cases, run_large,
+                  f'size thresholds (blocking): every derivative routine of the property ({len(LG)} callables: 9 families _der / _der_seq, zernike_nm_der(_seq), the three Clenshaw derivative sums (j=2), '
+                  'compute_z_zprime_Qbfs/_Qcon/_Q2d, the five conic helpers, Q2d_and_der; one parameter setting each) x coordinate sizes {2^k+1, 2^k+2^(k-1)+3 : k=7..16} (1-D), '
+                  f'2-D shapes {LG_2D} and {LG_BIG} (> 2^20 points' + (f'; quick tier: only for the {len(LG_GRID)} routines that are evaluated on whole surface / pupil grids' if q else '') + '; Q2d_and_der, which grids vector x, y, gets the 1-D sizes as (1, N) arrays): '
+                  'the routines are point-wise in the coordinates, so the result for an 11-point generic '
+                  'coordinate set tiled cyclically (odd period, C order) to the large shape must equal the tiled 11-point result on EVERY element (1000 eps relative to the row maximum); the 11-point '
+                  'configurations are inside the scopes judged against the differentiated value routines by the other units.  This unit is a finite threshold alphabet, not closed over the data dimension', reset=reset_all, chunk=1),
     ]
